@@ -94,6 +94,32 @@ pub fn run(tier: &str) -> Result<Report, String> {
         n_restricted += 1;
     }
     slices.push(json!({"part": "core networks with the unit set restricted to every second colour", "networks": n_restricted}));
+    // graphs whose unit set is narrowed in VERTICES after construction (SymbolicAsyncGraph::restrict to the states where the first
+    // variable is true / false): plain and extended formulae (context sets cut to the narrowed unit set) must stay inside it
+    {
+        use biodivine_lib_param_bn::biodivine_std::traits::Set;
+        let mut n_vertex = 0;
+        for b in nets.iter().filter(|b| b.n >= 2 && b.n <= 3) {
+            for val in [true, false] {
+                let v0 = b.graph.variables().next().unwrap();
+                let sub = b.graph.unit_colored_vertices().intersect(&b.graph.fix_network_variable(v0, val));
+                let g = b.graph.restrict(&sub);
+                let vb = std::sync::Arc::new(b.with_graph(&format!("{}|{}={}", b.name, b.spec.vars[0], val), g));
+                let fam = label_families(b, 1).pop().unwrap();
+                let mut ctx = NetCtx::new(vb.clone(), fam.1, &format!("{} cut to the narrowed unit set", fam.0));
+                for s in ctx.sets.values_mut() {
+                    *s = s.intersect(vb.graph.unit_colored_vertices());
+                }
+                let mut fs = Gen::new(Alphabet::extended(ctx.nprops(), 2, 1, 2)).closed_up_to(3);
+                fs.extend(crate::formulas::templates(&ctx.user, true, 2));
+                let (plain, ext): (Vec<_>, Vec<_>) = fs.into_iter().partition(|f| !f.uses_wild_or_dom());
+                sem::sweep(&mut rep, &ctx, &plain, Checks { semantic: false, unit: true, entries: Entries::Plain4 });
+                sem::sweep(&mut rep, &ctx, &ext, Checks { semantic: false, unit: true, entries: Entries::Ext2 });
+                n_vertex += 1;
+            }
+        }
+        slices.push(json!({"part": "graphs narrowed in vertices (first variable fixed to true / false)", "graphs": n_vertex}));
+    }
     // every constrained network of the all-2-variable grammar
     let (all2, info) = all2_nets(3, if tier == "quick" { Some(2) } else { None })?;
     rep.set("all_2_variable_networks", info);
@@ -110,6 +136,6 @@ pub fn run(tier: &str) -> Result<Report, String> {
     }
     slices.push(json!({"part": "constrained networks of the all-2-variable family", "networks": n2, "max_nodes": 3, "formulae": fs2.len()}));
     rep.set("slices", json!(slices));
-    rep.rule = "networks of the core family and of the de-duplicated all-2-variable family whose unit set is a strict subset of all parameter valuations x all closed plain formulae (all 9 binary operators) up to plain_max_nodes, the template families (benchmark formulae, quantifier nests, sub-formulae duplicated up to renaming at equal / different quantifier depths in both orders) and extended formulae up to extended_max_nodes plus the extended templates and the pair family of the collision alphabet: every raw result must be a subset of the unit set and independent of auxiliary variables, every sanitised result must not have more elements/colours than the unit set; also: graphs whose context gives different numbers of spare variables to different network variables (raw result independent of spare variables and equal to the uniform graph's); distinct_nontrivial counts distinct non-trivial verdict tables of the explored formulae".into();
+    rep.rule = "networks of the core family and of the de-duplicated all-2-variable family whose unit set is a strict subset of all parameter valuations x all closed plain formulae (all 9 binary operators) up to plain_max_nodes, the template families (benchmark formulae, quantifier nests, sub-formulae duplicated up to renaming at equal / different quantifier depths in both orders) and extended formulae up to extended_max_nodes plus the extended templates and the pair family of the collision alphabet: every raw result must be a subset of the unit set and independent of auxiliary variables, every sanitised result must not have more elements/colours than the unit set; also: graphs narrowed in vertices by SymbolicAsyncGraph::restrict (first variable fixed), plain and extended formulae with context sets inside the narrowed unit set; graphs whose context gives different numbers of spare variables to different network variables (raw result independent of spare variables and equal to the uniform graph's); distinct_nontrivial counts distinct non-trivial verdict tables of the explored formulae".into();
     Ok(rep)
 }
